@@ -763,16 +763,16 @@ pub fn seal(b: &mut Block, mode: PowMode, prev: &BlockHeader) -> Result<(), Stri
 			pow::pow_size(&mut b.header, diff, global::proofsize(), edge_bits).map_err(|e| format!("pow_size: {:?}", e))
 		}
 		PowMode::Skip(_) => {
-			// deterministic pseudo-random proof (hash input only; never verified)
-			let h = crate::refmmr::blake(&[&b.header.pre_pow()]);
-			let mut nonces: Vec<u64> = (0..global::proofsize()).map(|i| ((h[i % 32] as u64) << 8 | i as u64) & 0x3ff).collect();
-			nonces.sort();
-			nonces.dedup();
-			while nonces.len() < global::proofsize() {
-				let n = nonces.last().unwrap() + 1;
-				nonces.push(n);
-			}
-			b.header.pow.proof = pow::Proof::new(nonces);
+			// deterministic pseudo-random proof (never verified under SKIP_POW). The
+			// header hash is the hash of the packed proof nonces ONLY, so the proof
+			// must carry enough entropy to keep header hashes distinct: 8 x 10 bits
+			// taken from a hash of the whole pre-PoW header.
+			let h = crate::refmmr::blake(&[b"gv-skip-pow", &b.header.pre_pow()]);
+			let nonces: Vec<u64> = (0..global::proofsize()).map(|i| (((h[(2 * i) % 32] as u64) << 8) | h[(2 * i + 1) % 32] as u64) & 0x3ff).collect();
+			b.header.pow.proof = pow::Proof {
+				edge_bits: global::min_edge_bits(),
+				nonces,
+			};
 			b.header.pow.proof.edge_bits = global::min_edge_bits();
 			Ok(())
 		}
